@@ -116,4 +116,23 @@ theorem asm_no_panic {oracle : Nat → Option (Res BTR)} {manual : List ManualEd
     assemble tb manual fnAddr ≠ .panic :=
   C06Asm.asm_no_panic ho h
 
+open Falcon.CfgEdit Falcon.Assemble in
+/-- the semantic clause for the assembly model: under the (decidable, per-case checked) coherence of the translation
+    results, the recovered function and the reference machine "one lifted instruction at a time" have the same
+    executions in the IL operational semantics — see `C06Asm.asm_refines` for the full discussion -/
+theorem asm_refines {tb : List (Nat × BTR)} {manual : List ManualEdge} {fnAddr : Nat} {f : Function}
+    (hc : Coherent tb manual) (hg : C06Asm.GraphsWF tb) (h : assemble tb manual fnAddr = .ok f) :
+    ∃ Ψ : RConfig → Config,
+      (∀ x, (Ψ x).state = x.state) ∧
+      (∀ g en σ, graphAt tb fnAddr = some g → g.entry = some en →
+        ∃ fe, f.cfg.entry = some fe ∧ Ψ ⟨fnAddr, en, 0, σ⟩ = ⟨fe, 0, σ⟩) ∧
+      (∀ x y, RValid tb x → RRun tb manual x y → FRun f (Ψ x) (Ψ y)) ∧
+      (∀ x z, RValid tb x → FRun f (Ψ x) z → ∃ y, RRun tb manual x y ∧ Ψ y = z) :=
+  C06Asm.asm_refines hc hg h
+
+open Falcon.CfgEdit Falcon.Assemble in
+/-- `merge` preserves executions, not only the language -/
+theorem asm_merge_executions {c : Cfg} (hw : WF c) : ∃ μ, C06Asm.ExecEquiv c (merge c).cfg μ :=
+  C06Asm.merge_preserves_executions hw
+
 end Falcon.C06
